@@ -16,6 +16,7 @@ type Profile struct {
 	Disconnects      bool // quit / drop in the middle of the history
 	HardDrops        bool // RST disconnects (need polling at the end)
 	Ping             bool
+	Streamed         bool // unsharded reads whose reply exceeds 16 MiB / carries two result sets
 	MaxExecMs        int
 	StallMs          int
 	OddAutocommit    bool // SET autocommit=1 inside a BEGIN-started transaction (rare)
@@ -164,6 +165,15 @@ func Build(c Case, p Profile, raws []RawCmd, nsess int) []Cmd {
 		}
 		if kind == "stmt" {
 			kind = stmtKinds[r.Stmt%len(stmtKinds)]
+			// a few statements per run get a reply the proxy has to stream
+			if p.Streamed && (kind == KURead || kind == KUForUpdate) {
+				switch {
+				case r.N == 9 && r.Keys[0] < 5:
+					kind = KUBig
+				case r.N == 8:
+					kind = KUMulti
+				}
+			}
 		}
 		cmd.K = kind
 		cmd.N = r.N
